@@ -97,6 +97,8 @@ func (g *gen) injectFailure(cmds []Cmd, pos int) {
 				Body: []Cmd{{K: "p", D: l.D}}}
 		default:
 			l.F = true
+			// the command gives up explicitly: it stops its scope, then reports the failure
+			l.S = often(g.rt, 25, "stopfirst")
 		}
 		return
 	}
